@@ -455,6 +455,31 @@ func ruleOperationType(r *Run) {
 		}
 	}
 	r.AtLeast(rule, "WithOperationType/Name call sites in the planner", m, 2)
+	// (4) the executor sends every step under the step's own operation name (set by the planner
+	// for root steps only, see (2)) — never under the client's: a follow-up `node(id:)` lookup is
+	// an anonymous query, and a service rejects an operationName that its document does not define
+	k := 0
+	for _, fn := range r.P.Funcs {
+		if topFn(fn).Pkg == nil || topFn(fn).Pkg.Pkg.Path() != modPath+"/executor" {
+			continue
+		}
+		for _, ins := range allInstrs(fn) {
+			st, ok := ins.(*ssa.Store)
+			if !ok {
+				continue
+			}
+			fa, ok := st.Addr.(*ssa.FieldAddr)
+			if !ok || fieldOf(fa) == nil || fieldOf(fa).Name() != "OperationName" || namedOf(fa.X.Type()) != modPath+"/requests.Request" {
+				continue
+			}
+			k++
+			good, why := stepOperationName(st.Val, 0)
+			r.Check(good, rule, fnName(fn), "operation name of a downstream request", r.P.pos(st.Pos()),
+				"the request carries QueryPlanStep.OperationName, which the planner sets on root steps only",
+				"a downstream request is not sent under its step's own operation name ("+why+"): the client's operation name reaches the follow-up lookups, whose documents are anonymous — the service answers `unknown operation` (C02), or runs the wrong operation")
+		}
+	}
+	r.AtLeast(rule, "downstream requests built by the executor", k, 1)
 	// (3) default operation type of a new formatter is the constant query
 	nf := r.Anchor(rule, "format.NewFormatter")
 	if nf != nil {
@@ -471,6 +496,41 @@ func ruleOperationType(r *Run) {
 		r.Check(okDef, rule, fnName(nf), "default operation type", r.P.pos(nf.Pos()), "NewFormatter initialises operationType to the constant `query`",
 			"a new formatter does not start as `query`: steps that never set an operation type would not be queries")
 	}
+}
+
+// stepOperationName: v is the OperationName field of a plan step (possibly handed through a
+// module helper, all of whose results are).
+func stepOperationName(v ssa.Value, depth int) (bool, string) {
+	if depth > 4 {
+		return false, "too deep"
+	}
+	switch x := v.(type) {
+	case *ssa.UnOp:
+		if fa, ok := x.X.(*ssa.FieldAddr); ok && x.Op == token.MUL && fieldOf(fa) != nil {
+			if fieldOf(fa).Name() == "OperationName" && namedOf(fa.X.Type()) == plannerPkg+".QueryPlanStep" {
+				return true, ""
+			}
+			return false, "it is " + shortStruct(namedOf(fa.X.Type())) + "." + fieldOf(fa).Name()
+		}
+	case *ssa.Phi:
+		for _, e := range x.Edges {
+			if ok, why := stepOperationName(e, depth+1); !ok {
+				return false, why
+			}
+		}
+		return true, ""
+	case *ssa.Call:
+		if sc := x.Call.StaticCallee(); sc != nil && !x.Call.IsInvoke() && inModule(sc) && len(sc.Blocks) > 0 && sc.Signature.Results().Len() == 1 {
+			for _, ret := range returnsOf(sc) {
+				if ok, why := stepOperationName(retVals(ret)[0], depth+1); !ok {
+					return false, "on one path of " + fnName(sc) + " " + why
+				}
+			}
+			return true, ""
+		}
+		return false, "it is the result of " + calleeDesc(&x.Call)
+	}
+	return false, "it is " + describeSrc(v)
 }
 
 // freshFormatter: v is format.NewBufferedFormatter() possibly followed by With* builder calls.
